@@ -491,6 +491,17 @@ func init() {
 }
 
 func init() {
+	procAssume := []string{"the jobs run real processes on the Go runtime and the kernel: their interleaving is NOT owned by the checker; the input grammar is enumerated exhaustively, the schedule is whatever happens",
+		"the task runner is created exactly like the closure in app.go (NewTaskRunner + WithEnv(pipeline env), output discarded)"}
+	propMeta["C18"] = propInfo{Level: "exploration", Assumptions: procAssume,
+		Rule:        "every non-empty subset of the levels {process, pipeline, task} x 10 value classes (space, quotes, newline, $, =, UTF-8, backslash, glob ...) as one variable each, plus empty-value-wins cases, observed twice (interpreter expansion and child process environment) in two concurrent jobs with different values, in a task with and a task without task-level env; template rendering of string / int / float / list / map variables in two concurrent jobs; the reserved variable; a case is distinct per (name, job, observation path)",
+		Explanation: "exhaustive over the stated input grammar on real processes"}
+	propMeta["C19"] = propInfo{Level: "exploration", Assumptions: procAssume,
+		Rule:        "every single-chunk output (stream x size in {0,1,4095,4096,4097,70001[,1MiB]} x trailing newline x builtin/exec producer), two- and three-command tasks over a reduced alphabet, 9 task names, every job twice concurrently; store reader and /job/logs must return exactly the generated bytes per (job, task, stream); a case is distinct per (job, task, stream)",
+		Explanation: "exhaustive over the stated output grammar on real processes"}
+	propMeta["C20"] = propInfo{Level: "exploration", Assumptions: append([]string{"process death is observed through /proc/*/environ (a per-run marker in the task env); zombies do not count as alive; allowance after the finished report: kill timeout (300ms) + 10s"}, procAssume...),
+		Rule:        "process-tree grammar: 4 interpreter-level forms x child shell scripts (foreground, background+wait, background without wait, pipeline, subshell, trap INT; nested one level) + helpers daemonised by an earlier command, x cancel instants {all leaves running, at once} x {CancelJob, forced Shutdown}, with a bystander job that must survive; a case is one (shape, instant/mode)",
+		Explanation: "exhaustive over the stated process-tree grammar on real processes"}
 	propMeta["C14"] = propInfo{Level: "model_checking",
 		Assumptions: []string{"routes and methods are discovered from the chi router of the real server (server.VerifRoutes + chi.Walk), so new routes are included",
 			"expiry classes use +-1h offsets so that the wall clock inside the JWT library cannot flip a verdict",
